@@ -11,10 +11,11 @@ _MODS = ["Astria.Ledger.Model", "Astria.Ledger.Conservation", "Astria.Ledger.The
 PROPS = {
     "C02": {
         "level": "proof",
-        "lean_modules": _MODS + ["Astria.Ledger.Privileged", "Astria.Properties.C02"],
+        "lean_modules": _MODS + ["Astria.Ledger.Escrow", "Astria.Ledger.Privileged", "Astria.Properties.C02"],
         "theorems": ["Astria.C02_debit_authorised", "Astria.C02_priv_authorised", "Astria.C02_init_bridge_authorised",
                      "Astria.C02_bridge_source_guard", "Astria.C02_priv_change_authorised",
-                     "Astria.C02_tx_priv_change_authorised", "Astria.C02_packets_change_no_privileged_state"],
+                     "Astria.C02_tx_priv_change_authorised", "Astria.C02_packets_change_no_privileged_state",
+                     "Astria.C02_every_step_attributed", "Astria.C02_block_end_applies_pending_updates_only"],
         "harnesses": ["ledger"],
         "monitors": ["debit_authorised", "priv_authorised", "dump_parse"],
         "scope_regex": r"^ledger (tx|ctor|exec) ",
